@@ -323,6 +323,10 @@ def unlockAccts (cfg : Cfg) : List (Nat × AcctInfo) → Option (List (Nat × Ac
       if cfg.f2 then (unlockAccts cfg t).map ((a, i) :: ·) else none
     else (unlockAccts cfg t).map ((a, { i with keyPriv := true }) :: ·)
 
+/-- `acctInfo.acctKeyPriv != nil` of a cached account (false when not cached) -/
+def keyPrivOf (m : Mem) (sc acct : Nat) : Bool :=
+  match acctInfoOf m sc acct with | some i => i.keyPriv | none => false
+
 /-- the loop over `manager.deriveOnUnlock` (a snapshot `es` of the slice); every processed entry removes the
 head of the live slice. Result: memory and `none` (all done) / `some e` (stopped with error e; for `.panic`
 the manager is left as it was at that point, otherwise Unlock calls lock() — done by the caller). -/
@@ -332,7 +336,7 @@ def unlockDou (cfg : Cfg) (d : Disk) (sc : Nat) : List Dou → Mem → Mem × Op
     match loadAcct d m sc e.acct with
     | .error err => (m, some err)
     | .ok m1 =>
-      let priv := match acctInfoOf m1 sc e.acct with | some i => i.keyPriv | none => false
+      let priv := keyPrivOf m1 sc e.acct
       let drop (x : Mem) : Mem := x.updScope sc (fun s => { s with dou := s.dou.tail })
       if !priv then
         if cfg.f2b then unlockDou cfg d sc es (drop m1) else (m1, some .panic)
@@ -471,6 +475,29 @@ def renameAccount (d : Disk) (m : Mem) (sc acct : Nat) (name : String) : Disk ×
 
 /-! ### nextAddresses / extendAddresses -/
 
+/-- branch number of the internal flag -/
+def brOf (internal : Bool) : Nat := if internal then 1 else 0
+
+/-- next index of the branch -/
+def nextOf (info : AcctInfo) (internal : Bool) : Nat := if internal then info.nextInt else info.nextExt
+
+/-- last address object of the branch -/
+def lastOf (info : AcctInfo) (internal : Bool) : Nat := if internal then info.lastInt else info.lastExt
+
+/-- `acctInfo.next…Index = idx; acctInfo.last…Addr = obj` -/
+def setNext (info : AcctInfo) (internal : Bool) (idx obj : Nat) : AcctInfo :=
+  if internal then { info with nextInt := idx, lastInt := obj } else { info with nextExt := idx, lastExt := obj }
+
+/-- the `watchOnly` test of extendAddresses (f3: same predicate as nextAddresses) -/
+def extWatch (cfg : Cfg) (m : Mem) (info : AcctInfo) : Bool :=
+  m.watchOnly || (if cfg.f3 then !info.hasEnc else info.keyPriv)
+
+/-- cache insertion + derive-on-unlock registration done per new address by extendAddresses / the onCommit closure -/
+def cacheNew (sc : Nat) (watchOnly : Bool) (m : Mem) (e : Dou) : Mem :=
+  m.updScope sc fun s =>
+    { s with addrs := aset s.addrs (.chain e.acct e.br e.idx) e.obj,
+             dou := if m.locked && !watchOnly then s.dou ++ [e] else s.dou }
+
 /-- allocate the address objects for indices `start … start+n-1` (newManagedAddressFromExtKey) -/
 def mkAddrs (m : Mem) (acct br : Nat) (priv : Bool) : Nat → Nat → Mem × List Dou
   | _, 0 => (m, [])
@@ -521,8 +548,8 @@ def nextAddresses (d : Disk) (m : Mem) (sc acct n : Nat) (internal : Bool) : Nex
     | some info =>
       let watchOnly := m1.watchOnly || !info.hasEnc
       let priv := !m1.locked && !watchOnly
-      let br := if internal then 1 else 0
-      let nextIndex := if internal then info.nextInt else info.nextExt
+      let br := brOf internal
+      let nextIndex := nextOf info internal
       if n > MAXADDR || nextIndex + n > MAXADDR then ⟨d, m1, none, .error .tooManyAddresses⟩
       else if priv && !info.keyPriv then ⟨d, m1, none, .error .panic⟩
       else
@@ -535,15 +562,11 @@ def nextAddresses (d : Disk) (m : Mem) (sc acct n : Nat) (internal : Bool) : Nex
 
 /-- the `onCommit` closure of nextAddresses -/
 def runPend (m : Mem) (p : Pend) : Mem :=
-  let m1 := p.infos.foldl (fun (m : Mem) e =>
-    m.updScope p.scope fun s =>
-      { s with addrs := aset s.addrs (.chain e.acct e.br e.idx) e.obj,
-               dou := if m.locked && !p.watchOnly then s.dou ++ [e] else s.dou }) m
+  let m1 := p.infos.foldl (cacheNew p.scope p.watchOnly) m
   match p.infos.getLast?, acctInfoOf m1 p.scope p.acct with
   | some last, some ai =>
-    let ai' := if p.internal then { ai with nextInt := p.nextIdx, lastInt := last.obj }
-               else { ai with nextExt := p.nextIdx, lastExt := last.obj }
-    m1.updScope p.scope fun s => { s with acctInfo := aset s.acctInfo p.acct ai' }
+    m1.updScope p.scope fun s =>
+      { s with acctInfo := aset s.acctInfo p.acct (setNext ai p.internal p.nextIdx last.obj) }
   | _, _ => m1
 
 def extendAddresses (cfg : Cfg) (d : Disk) (m : Mem) (sc acct lastIdx : Nat) (internal : Bool) :
@@ -554,10 +577,10 @@ def extendAddresses (cfg : Cfg) (d : Disk) (m : Mem) (sc acct lastIdx : Nat) (in
     match acctInfoOf m1 sc acct with
     | none => (d, m1, some .accountNotFound)
     | some info =>
-      let watchOnly := m1.watchOnly || (if cfg.f3 then !info.hasEnc else info.keyPriv)
+      let watchOnly := extWatch cfg m1 info
       let priv := !m1.locked && !watchOnly
-      let br := if internal then 1 else 0
-      let nextIndex := if internal then info.nextInt else info.nextExt
+      let br := brOf internal
+      let nextIndex := nextOf info internal
       if lastIdx < nextIndex then (d, m1, none)
       else if lastIdx > MAXADDR then (d, m1, some .tooManyAddresses)
       else if priv && !info.keyPriv then (d, m1, some .panic)
@@ -566,16 +589,12 @@ def extendAddresses (cfg : Cfg) (d : Disk) (m : Mem) (sc acct lastIdx : Nat) (in
         match putAll sc r.2 d with
         | none => (d, r.1, some .database)
         | some d2 =>
-          let m2 := r.2.foldl (fun (m : Mem) e =>
-            m.updScope sc fun s =>
-              { s with addrs := aset s.addrs (.chain e.acct e.br e.idx) e.obj,
-                       dou := if m.locked && !watchOnly then s.dou ++ [e] else s.dou }) r.1
+          let m2 := r.2.foldl (cacheNew sc watchOnly) r.1
           match r.2.getLast? with
           | none => (d2, m2, none)
           | some last =>
-            let ai' := if internal then { info with nextInt := lastIdx + 1, lastInt := last.obj }
-                       else { info with nextExt := lastIdx + 1, lastExt := last.obj }
-            (d2, m2.updScope sc fun s => { s with acctInfo := aset s.acctInfo acct ai' }, none)
+            (d2, m2.updScope sc fun s =>
+              { s with acctInfo := aset s.acctInfo acct (setNext info internal (lastIdx + 1) last.obj) }, none)
 
 /-! ### imports / mark used / sync -/
 
@@ -715,8 +734,8 @@ def query (d : Disk) (m : Mem) : Query → Mem × QRes
       match acctInfoOf m1 sc acct with
       | none => (m1, .err .accountNotFound)
       | some ai =>
-        if (if internal then ai.nextInt else ai.nextExt) > 0 then
-          let id := if internal then ai.lastInt else ai.lastExt
+        if nextOf ai internal > 0 then
+          let id := lastOf ai internal
           (m1, .addr (m1.heap id).key (m1.heap id).acct)
         else (m1, .err .addressNotFound)
   | .lookup sc name =>
@@ -821,7 +840,7 @@ def exec (s : State) (m : Mem) : Op → State × Res
     match query s.disk m (.lastAddr sc a int) with
     | (m1, .addr _ _) =>
       match acctInfoOf m1 sc a with
-      | some ai => let x := privKeyObj m1 (if int then ai.lastInt else ai.lastExt); ({ s with mem := some x.1 }, ofErr x.2)
+      | some ai => let x := privKeyObj m1 (lastOf ai int); ({ s with mem := some x.1 }, ofErr x.2)
       | none => ({ s with mem := some m1 }, .err .accountNotFound)
     | (m1, .err e) => ({ s with mem := some m1 }, .err e)
     | (m1, _) => ({ s with mem := some m1 }, .err .database)
